@@ -256,6 +256,31 @@ def check_ym(acc, pendulum, y, mo, rest, n):
     want = (y * n, mo * n, obs.td_us(d) * n)
     if got != want:
         acc.mismatch("mul", "years-months", case, got, want)
+    # the same operand object REUSED across the operator families (additive ones count a year as 365 days and a month as 30,
+    # scaling acts on years and months component-wise): every answer is the one a fresh operand gives, in either order
+    import datetime as dt_
+    hour = dt_.timedelta(hours=1)
+    total = obs.td_us(d)
+
+    def fam_add(v):
+        return [obs.td_us(v + hour), obs.td_us(hour + v), obs.td_us(v - hour), obs.td_us(hour - v), obs.td_us(v.as_timedelta())]
+
+    def fam_mul(v):
+        r = [v * 3, -2 * v] + ([v // 2, v / 2] if True else [])
+        return [(x.years, x.months, obs.td_us(x)) for x in r]
+
+    for order in ("add-then-scale", "scale-then-add"):
+        v = pendulum.Duration(years=y, months=mo, microseconds=rest)
+        try:
+            res = (fam_add(v), fam_mul(v)) if order == "add-then-scale" else tuple(reversed((fam_mul(v), fam_add(v))))
+            fresh = (fam_add(pendulum.Duration(years=y, months=mo, microseconds=rest)), fam_mul(pendulum.Duration(years=y, months=mo, microseconds=rest)))
+        except Exception as e:  # noqa: BLE001
+            acc.mismatch("reuse", f"years-months/{order}/raises-{type(e).__name__}", case, str(e)[:80], "values")
+            continue
+        acc.c["evaluations"] += 2
+        wa = [total + 3600 * US, 3600 * US + total, total - 3600 * US, 3600 * US - total, total]
+        if list(res[0]) != wa or list(res) != list(fresh):
+            acc.mismatch("reuse", f"years-months/{order}", case, [res[0], res[1]], [wa, fresh[1]])
 
 
 FLOAT_BUILT = [{"seconds": 1 / 3}, {"seconds": 0.1234567}, {"microseconds": 0.25}, {"hours": 1, "microseconds": 0.375},
